@@ -438,6 +438,7 @@ def run(ctx):
                 chk.ob("C15.d", f"{gd_.path} [window configuration]", okw, f"bucket duration from self.{next(iter(fd))}, bucket count from self.{next(iter(fc))}, independently" if okw else f"the summary's bucket duration depends on {sorted(fd)} and its bucket count on {sorted(fc)}: a configured duration or count is discarded unless both are set, and the quantiles cover a different window than configured", ns[0].loc())
     from props.common import import_rules
 
+    import_rules(ctx, "C07", {"C07.a"}, "C15.f", "imported from C07 (where drained samples are merged into the per-series distribution): the distribution of a series is created-or-fetched and extended under one write guard — otherwise two overlapping drains (render and upkeep) overwrite each other's freshly filled distribution and bucket counts / _count drop from one render to the next", floor=5)
     import_rules(ctx, "C07", {"C07.b"}, "C15.e", "imported from C07 (how a summary is aggregated and rendered): per sample one add(sample, ts) and sum += sample, and render takes _count/_sum from the cumulative counters, never from the windowed snapshot — otherwise _sum and _count do not cover all samples (they shrink as the window moves, or skip non-finite samples)", floor=4)
 
 
